@@ -38,6 +38,8 @@ type AttemptPlan struct {
 	NoCancelCtx    bool // the caller passes context.Background(): nothing can cancel the attempt, it ends by its cause (or by the master closing the connection)
 	RewindTo       bool // before this attempt the application re-points the same Streamer to one of the end labels delivered so far (SetBinlogPosition)
 	EnvPanic       bool // the failing handler / table mapper panics instead of returning its error; the application recovers around Stream
+	OpenCk         int  // checksum setting of the dump's opening artificial ROTATE (see simMaster.openCk)
+	SetErrVariant  int  // set-error: shape of the master's reply
 	SkipRefused    bool // the application skips the transaction its handler refused in the previous attempt: SetBinlogPosition(refused.NextPosition)
 	HandshakeCut   int  // handshake-fin: bytes of the greeting that still arrive
 	ErrorCalls     int  // how many times Error() is called after Stream returned (>=1)
@@ -193,6 +195,8 @@ func (r *Run) dial(ctx context.Context) (net.Conn, error) {
 	if r.att != nil {
 		m.plan = r.att.Plan.Stream
 		m.connPlan = r.dialPlan
+		m.openCk = r.att.Plan.OpenCk
+		m.setErrVariant = r.att.Plan.SetErrVariant
 		r.att.Master = &m.log
 		r.att.HadConn = true
 	}
@@ -1229,7 +1233,17 @@ func (r *Run) runAttempt(idx int, plan AttemptPlan) bool {
 					att.PoisonDelivered = true
 				}
 				if e.Type >= evWriteRowsV1 && e.Type <= evDeleteRowsV2 && e.Type != evIncident && e.Type != evHeartbeat {
-					att.PoisonRowsDelivered = true
+					// the rows event that cannot be decoded is the last one of the unit (a
+					// column-count change has a well-formed rows event in front of it)
+					var last *Event
+					for _, x := range sc.Hist.Units[e.Unit].Events {
+						if x.Type >= evWriteRowsV1 && x.Type <= evDeleteRowsV2 && x.Type != evIncident && x.Type != evHeartbeat {
+							last = x
+						}
+					}
+					if e == last {
+						att.PoisonRowsDelivered = true
+					}
 				}
 			}
 		}
